@@ -714,6 +714,12 @@ def _cases(tier, kind):
                 vn = ("plain", "ign1", "sc05", "sc0")[salt % 4]
                 ign, sc = variant(vn, have, salt)
                 yield dict(edges=[[u, v, None] for u, v in E], nodes=nl, mode="node", wt=wt, k=k, ign=ign, sc=sc, fam="dag/node/" + vn)
+    # ---- DAG model, values on nodes + solution_weights_superset with an offered weight that stays unused BEFORE a used one
+    if kind == "lae":
+        for E, nl in (([("x", "y"), ("y", "z")], [["x", 3], ["y", 3], ["z", 3]]),
+                      ([("x", "y"), ("x", "z"), ("y", "w"), ("z", "w")], [["x", 4], ["y", 3], ["z", 1], ["w", 4]])):
+            for k, sup in ((1, [5, 3]), (2, [5, 3, 1]), (2, [7, 1, 3])):
+                yield dict(edges=[[u, v, None] for u, v in E], nodes=nl, mode="node", wt="int", k=k, sup=sup, fam="dag/node/superset")
     # ---- bottleneck: b heavy branches enter and leave one light edge; with k = b routes the best solution overshoots the light edge by
     #      more than the largest single value (per-element error above max value; needs the k factor in the variables' upper bounds)
     for b, heavy, light in ((2, 2, 0), (3, 2, 0)) if tier == "quick" else ((2, 2, 0), (2, 3, 1), (3, 2, 0), (3, 3, 1)):
